@@ -102,6 +102,17 @@ def run(ck, facts, tier):
         for r, op, ks in c01.impls(facts, num):
             if op == "rem":
                 c01.check_body(ck, r3, facts, r, op, ks, num, flds, ev)
+                # "the truncated quotient" is trunc of ONE floating-point division of the two values: a quotient taken from a dual-number division
+                # (a * b^-1, rounded twice) can land an ulp below an integer and lose a whole multiple
+                for e in hir.walk(r["body"]):
+                    is_trunc = (e.get("k") == "call" and (e["f"].get("def") or "").endswith("::trunc")) or (e.get("k") == "mcall" and e["m"] == "trunc")
+                    if is_trunc:
+                        arg = e["args"][0] if e.get("k") == "call" else e["recv"]
+                        while arg.get("k") in ("ref", "paren") or (arg.get("k") == "block" and not arg["stmts"] and "e" in arg):
+                            arg = arg["e"]
+                        okq = arg.get("k") == "bin" and arg["op"] == "Div" and all((x.get("ty") or "").replace("&", "").strip() == "f64" for x in (arg["l"], arg["r"]))
+                        ck.check(r3, re.sub(r"dual::(dual|enums)(_ops::\w+)?::", "", r["fn"]) + ":quotient", okq,
+                                 "the truncated quotient is not trunc(one f64 division of the two values): %s" % hir.fmt(arg)[:160], "%s:%d" % (r["file"], r["line"]), sample="trunc(a.real / b.real)")
 
     # ---- R19.4 sum
     r4 = ck.rule("R19.4", "Sum::sum = iter.fold(zero, |acc, x| acc + x) with a variable-free zero (left-to-right addition from zero)", floor=2)
